@@ -133,6 +133,18 @@ def gen_history(rnd: random.Random, flavor: dict) -> dict:
             if dcomp:
                 entry["criteria"] = "Canonical"
             moves.append(entry)
+        if rnd.random() < flavor.get("wrap_exch", 0.08):
+            # "use the CompositeMove class with individual ExchangeMove objects" for per-move biases (docstring of
+            # CompositeExchangeMove): a swap move - the first always deletes, the second always inserts
+            e1, e2 = copy.deepcopy(exch), copy.deepcopy(exch)
+            e1["bias"], e2["bias"] = 0.0, 1.0
+            moves.append({"name": "xwrap", "criteria": "GrandCanonical", "probability": gen.rfloat(rnd, 0.5, 2.0, 3),
+                          "move": {"type": "wrap", "items": [e1, e2]}})
+        elif rnd.random() < flavor.get("wrap_exch_free", 0.0):
+            # both members decide independently: insert-then-delete and delete-then-delete can happen in ONE trial
+            sc["free_exchange_composite"] = True
+            moves.append({"name": "xfree", "criteria": "GrandCanonical", "probability": gen.rfloat(rnd, 0.5, 2.0, 3),
+                          "move": {"type": "wrap", "items": [copy.deepcopy(exch), copy.deepcopy(exch)]}})
         if rnd.random() < ext_p:
             which = rnd.choice(["ref", "mixed", "nested_ref"])
             if which == "nested_ref" and any(m["name"] == "disp" and m["move"]["type"] == "disp" for m in moves):
@@ -232,7 +244,7 @@ def gen_history(rnd: random.Random, flavor: dict) -> dict:
         # a veto-all trial runs max_attempts attempts: keep that bounded (10000 stays reachable
         # through runs without veto-all)
         def cap(m):
-            if m["type"] == "sum":
+            if m["type"] in ("sum", "wrap"):
                 for it in m["items"]:
                     cap(it)
             elif m["type"] == "mul":
@@ -302,7 +314,7 @@ def _drop_atom(sc, idx):
             def find(m):
                 if m["type"] == "exch":
                     return m
-                if m["type"] == "sum":
+                if m["type"] in ("sum", "wrap"):
                     for it in m["items"]:
                         r = find(it)
                         if r:
@@ -354,7 +366,7 @@ def shrink_mc(sc, signature, violation):
     # 3. composites -> element
     for i, e in enumerate(sc["moves"]):
         m = e["move"]
-        if m["type"] == "sum":
+        if m["type"] in ("sum", "wrap"):
             for j in range(len(m["items"])):
                 if len(m["items"]) > 2:
                     c = copy.deepcopy(sc)
